@@ -18,6 +18,11 @@
 // clause "no read is sent whose timestamp failed validation" is judged per command and entry point
 // (keys read-sent-with-invalid-ts/<cmd>/<sync|async>), so a command that drops out of the validated set,
 // an entry point that skips the validation or a wrong stale-read flag handed to the validator is seen.
+//
+// Part after-forwarded (config.Pre, world.earlierCall): two calls on one region cache. An earlier leader read
+// ends in a forwarded success (leader store unreachable, forwarding on), so the region remembers the proxy;
+// the judged call then runs every script x tail on that cache. Findings that the same case without the
+// earlier call does not have carry /remembered-proxy/ in their key.
 package main
 
 import (
@@ -52,6 +57,19 @@ type finding struct {
 	key  string
 	what string
 	loop []string // unbounded-retry only: the answers that repeat forever
+	qual string   // part after-forwarded: the class exists only after the earlier call (see qualify)
+}
+
+// qualify marks a finding of a two-call case that the same case without the earlier call does not have:
+// the class is named after what the earlier call left behind.
+func (f finding) qualify(q string) finding {
+	f.qual = q
+	if i := strings.Index(f.key, "/"); i > 0 {
+		f.key = f.key[:i] + "/" + q + f.key[i:]
+	} else {
+		f.key += "/" + q
+	}
+	return f
 }
 
 const replicas = 3
@@ -457,6 +475,28 @@ func makeBounds(thorough bool) bounds {
 		}
 	}
 	tsAll := []string{"valid", "future", "max", "future-novalidate"}
+	// after-forwarded: two calls on one region cache. The earlier call (config.Pre) is a leader read that ends
+	// in a forwarded success - leader store unreachable, forwarding on - so that the region REMEMBERS the proxy
+	// (regionStore.proxyTiKVIdx) and the leader store is known unreachable; the judged call then runs every
+	// fault script on that cache, in every mode / command / budget of the base grid. A fresh cache never has a
+	// remembered proxy, so the selector's "remembered proxy" branch is reached by this part only. The earlier
+	// calls: the first proxy tried works (store2 is remembered) / it fails once and the next works (store3).
+	twoCall := func(g grid, cmds []string) (out []config) {
+		g.cmds = cmds
+		g.slows = []string{"none"}
+		g.lives = []liveFwd{{"leader-down", true}, {"leader-down-known", true}}
+		pres := map[string][]string{
+			"leader-down":       {"RPCError", "RPCError,RPCError"}, // leader fails (found unreachable), forwarded via store2 | store2 fails too, via store3
+			"leader-down-known": {"ok", "RPCError"},                // forwarded at once via store2 | store2 fails, via store3
+		}
+		for _, c := range g.product() {
+			for _, pre := range pres[c.Live] {
+				c.Pre = pre
+				out = append(out, c)
+			}
+		}
+		return
+	}
 	var b bounds
 	if !thorough {
 		b.parts = []*part{
@@ -464,6 +504,7 @@ func makeBounds(thorough bool) bounds {
 			{Name: "read-ts", F: 1, alphabet: core, configs: probes(base.cmds)},
 			{Name: "read-ts-cmds", F: 1, alphabet: core, configs: perCmd(catalogue.reads, tsAll, []liveFwd{{"all", false}}, []int{0})},
 			{Name: "ts-carriers", F: 0, alphabet: core, configs: perCmd(others, []string{"valid", "future"}, []liveFwd{{"all", false}}, []int{0})},
+			{Name: "after-forwarded", F: 2, alphabet: core, configs: twoCall(base, []string{"get", "prewrite"})},
 		}
 	} else {
 		wide := base
@@ -490,6 +531,7 @@ func makeBounds(thorough bool) bounds {
 			{Name: "read-ts", F: 1, alphabet: all, configs: probes(wide.cmds)},
 			{Name: "read-ts-cmds", F: 2, alphabet: all, configs: perCmd(catalogue.reads, tsAll, []liveFwd{{"all", false}, {"leader-down-known", true}}, []int{0, 1})},
 			{Name: "ts-carriers", F: 1, alphabet: all, configs: perCmd(others, []string{"valid", "future", "max"}, []liveFwd{{"all", false}}, []int{0, 1})},
+			{Name: "after-forwarded", F: 2, alphabet: all, configs: twoCall(wide, wide.cmds)},
 		}
 	}
 	ord := 0
@@ -511,12 +553,16 @@ type stats struct {
 	byCmdPath                                           map[string]int64 // catalogue commands: runs per command/entry point
 	refused                                             map[string]int64 // command/entry point: runs that ended with no attempt because the read ts failed validation
 	validated                                           map[string]int64 // CmdType name: runs in which the code consulted the validator
+	byPre                                               map[string]int64 // two-call cases: runs per (earlier call, liveness, how it ended, proxy it left)
+	preRemembered                                       int64            // two-call cases that started the judged call with a remembered proxy
+	preForwarded                                        int64            // ... in which the judged call sent at least one forwarded attempt
 }
 
 type best struct {
 	f     finding
 	id    caseID
 	trace []attempt
+	pre   []attempt // attempts of the earlier call
 	count int64
 	seen  map[string]bool // "mode/cmd" combinations in which the class occurred
 }
@@ -551,13 +597,13 @@ func (x *explorer) report(f finding, r *result) {
 	mc := r.id.Cfg.Mode + "/" + r.id.Cfg.Cmd
 	cur, ok := x.viol[f.key]
 	if !ok {
-		x.viol[f.key] = &best{f: f, id: r.id, trace: r.attempts, count: 1, seen: map[string]bool{mc: true}}
+		x.viol[f.key] = &best{f: f, id: r.id, trace: r.attempts, pre: r.preAttempts, count: 1, seen: map[string]bool{mc: true}}
 		return
 	}
 	cur.count++
 	cur.seen[mc] = true
 	if caseLess(r.id, cur.id) {
-		cur.f, cur.id, cur.trace = f, r.id, r.attempts
+		cur.f, cur.id, cur.trace, cur.pre = f, r.id, r.attempts, r.preAttempts
 	}
 }
 
@@ -595,6 +641,9 @@ func pathHash(r *result, outcome string) uint64 {
 		h.Write(buf)
 	}
 	h.Write([]byte(outcome))
+	if r.id.Cfg.Pre != "" {
+		fmt.Fprintf(h, "|pre=%s>%d", r.preOutcome, r.preProxy)
+	}
 	return h.Sum64()
 }
 
@@ -605,6 +654,39 @@ func (wk *worker) one(id caseID) int {
 	x := wk.x
 	r := wk.w.run(id, x.fastCap, hardCapOf(id.Cfg.Budget))
 	outcome, fs := judge(r)
+	if id.Cfg.Pre != "" {
+		// A two-call case. Its findings are classed by a differential run: the same case without the earlier
+		// call (a case of the one-call space). What that run shows as well is reported under the plain key;
+		// the rest exists only in the state the earlier call left (remembered proxy, known liveness).
+		if len(fs) > 0 && r.setupErr == "" {
+			plain := id
+			plain.Cfg.Pre = ""
+			_, fs0 := judge(wk.w.run(plain, x.fastCap, hardCapOf(id.Cfg.Budget)))
+			has := map[string]bool{}
+			for _, f := range fs0 {
+				has[f.key] = true
+			}
+			q := "after-earlier-call"
+			if r.preProxy >= 0 {
+				q = "remembered-proxy"
+			}
+			for i, f := range fs {
+				if !has[f.key] {
+					fs[i] = f.qualify(q)
+				}
+			}
+		}
+		wk.st.byPre[fmt.Sprintf("earlier-call=%s live=%s fwd=%v -> %s, remembered proxy index %d", id.Cfg.Pre, id.Cfg.Live, id.Cfg.Fwd, r.preOutcome, r.preProxy)]++
+		if r.preProxy >= 0 {
+			wk.st.preRemembered++
+			for _, at := range r.attempts {
+				if at.Forwarded != "" {
+					wk.st.preForwarded++
+					break
+				}
+			}
+		}
+	}
 	for _, f := range fs {
 		x.report(f, r)
 	}
@@ -635,7 +717,11 @@ func (wk *worker) one(id caseID) int {
 	wk.st.paths[pathHash(r, outcome)] = struct{}{}
 	if n >= 2 {
 		x.samples.Add(func() any {
-			return map[string]any{"case": id, "attempts": r.attempts, "outcome": outcome, "backoff_ms": r.sleep}
+			m := map[string]any{"case": id, "attempts": r.attempts, "outcome": outcome, "backoff_ms": r.sleep}
+			if id.Cfg.Pre != "" {
+				m["earlier_call"] = map[string]any{"attempts": r.preAttempts, "ended": r.preOutcome, "remembered_proxy_index": r.preProxy}
+			}
+			return m
 		})
 	}
 	return n
@@ -742,6 +828,7 @@ func (x *explorer) phase(rnd int, jobs []job) {
 		wk := &worker{x: x, w: newWorld()}
 		wk.st.outcomes, wk.st.paths, wk.st.byPart = map[string]int64{}, map[uint64]struct{}{}, map[string]int64{}
 		wk.st.byCmdPath, wk.st.refused, wk.st.validated = map[string]int64{}, map[string]int64{}, map[string]int64{}
+		wk.st.byPre = map[string]int64{}
 		workers[i] = wk
 		wg.Add(1)
 		go func() {
@@ -837,6 +924,11 @@ func (x *explorer) phase(rnd int, jobs []job) {
 		for k := range wk.st.paths {
 			x.total.paths[k] = struct{}{}
 		}
+		for k, v := range wk.st.byPre {
+			x.total.byPre[k] += v
+		}
+		x.total.preRemembered += wk.st.preRemembered
+		x.total.preForwarded += wk.st.preForwarded
 	}
 }
 
@@ -873,7 +965,7 @@ func (x *explorer) finish(early bool) {
 			continue
 		}
 		for _, k2 := range keys {
-			if v2 := x.viol[k2]; v2 != nil && v2.f.loop != nil && subset(v2.f.loop, v.f.loop) {
+			if v2 := x.viol[k2]; v2 != nil && v2.f.loop != nil && v2.f.qual == v.f.qual && subset(v2.f.loop, v.f.loop) {
 				v2.count += v.count
 				for mc := range v.seen {
 					v2.seen[mc] = true
@@ -904,7 +996,11 @@ func (x *explorer) finish(early bool) {
 				what += fmt.Sprintf(" ends after %d attempts when the caps are raised x20", len(r2.attempts))
 			}
 		}
-		x.run.Violation(k, what, map[string]any{"config": v.id.Cfg, "script": v.id.Script, "tail": v.id.Tail, "trace": v.trace})
+		art := map[string]any{"config": v.id.Cfg, "script": v.id.Script, "tail": v.id.Tail, "trace": v.trace}
+		if v.id.Cfg.Pre != "" {
+			art["earlier_call_trace"] = v.pre
+		}
+		x.run.Violation(k, what, art)
 	}
 	x.mu.Unlock()
 	if early {
@@ -993,18 +1089,31 @@ func (x *explorer) finish(early bool) {
 		"max_attempts_in_one_call":                x.total.maxAttempts,
 		"max_consecutive_resends_without_backoff": x.total.maxFast,
 		"prefixes_not_extended":                   x.total.pruned,
+		"two_call_cases": map[string]any{
+			"runs_per_earlier_call_and_what_it_left":           x.total.byPre,
+			"judged_calls_started_with_a_remembered_proxy":     x.total.preRemembered,
+			"of_those_with_a_forwarded_attempt_in_judged_call": x.total.preForwarded,
+			"finding_classes_only_seen_after_the_earlier_call": "keys carry /remembered-proxy/ (or /after-earlier-call/ when no proxy was left): decided by re-running the case without the earlier call",
+			"dedup": "none: every (configuration incl. earlier call, script, tail) is executed; the state the earlier call leaves in the cache is a function of the configuration and is measured above",
+		},
 		"rule": "states = executed (configuration, script, tail) triples, all distinct; transitions = RPC attempts made by the real sender; " +
 			"scripts are enumerated depth first over the alphabet and extended only while the call consumes the whole script " +
 			"(a longer script with the same prefix is then the same run); non-trivial = at least 2 attempts or a non-success end; " +
 			"parts read-ts-cmds / ts-carriers: one configuration per (command of the catalogue, entry point SendReqCtx|SendReqAsync, replica-read mode, " +
 			"timestamp class, liveness), the commands being discovered from the request types (every CmdType x every accessor message type x every " +
-			"uint64 field that GetStartTS returns), not listed by hand",
+			"uint64 field that GetStartTS returns), not listed by hand; " +
+			"part after-forwarded: two calls on ONE region cache - an earlier leader read that ends in a forwarded success (leader store unreachable, " +
+			"forwarding on; via the first proxy or, after one failed proxy, via the second), so that the region remembers the proxy, then the judged call: " +
+			"every script x tail as in part main, every mode / command / budget; same oracle; the earlier call is part of the configuration (field pre)",
 		"bounds": map[string]any{"parts": partInfo, "tails": []string{tailSuccess, tailRepeat, tailCycle},
 			"configurations": nConfigs, "fast_resend_cap": x.fastCap},
 		"samples": x.samples.List(),
 	}
+	if x.total.byPart["after-forwarded"] > 0 && (x.total.preRemembered == 0 || x.total.preForwarded == 0) {
+		x.run.Incomplete(fmt.Sprintf("part after-forwarded is vacuous: %d judged calls started with a remembered proxy, %d of them forwarded an attempt", x.total.preRemembered, x.total.preForwarded))
+	}
 	x.run.Finish(cov, []string{
-		"one SendReqCtx call (configurations with path=async: one SendReqAsync call) per run on a fresh RegionCache/RegionRequestSender; one region on stores 1-3 (leader on store 1), store 4 hosts no peer",
+		"one SendReqCtx call (configurations with path=async: one SendReqAsync call) per run on a fresh RegionCache/RegionRequestSender - in part after-forwarded preceded by one unjudged leader-read Get on the same cache (own sender and Backoffer, budget 20 s, faults by position then genuine answers), microseconds earlier, liveness unchanged between the two calls; one region on stores 1-3 (leader on store 1), store 4 hosts no peer",
 		"back-off does not sleep (failpoint tikvclient/fastBackoffBySkipSleep); the Backoffer accounts the sleep as usual; jitter is deterministic (max in phase rnd=0, min in rnd=1)",
 		"replica tie-break randomness is replaced by first (rnd=0) / last (rnd=1) candidate, the same choice at every tie of a run",
 		"the cache's background tickers are stopped before the call; a store found unreachable stays unreachable for the rest of the call",
@@ -1056,6 +1165,26 @@ func replay(path string) {
 	r := newWorld().run(id, fastCapOf(), hardCapOf(id.Cfg.Budget))
 	outcome, fs := judge(r)
 	fmt.Printf("replay %s script=%v tail=%s\n", id.Cfg, id.Script, id.Tail)
+	if id.Cfg.Pre != "" {
+		fmt.Printf("earlier call: %d attempts, ended %s, remembered proxy index %d\n", len(r.preAttempts), r.preOutcome, r.preProxy)
+		plain := id
+		plain.Cfg.Pre = ""
+		_, fs0 := judge(newWorld().run(plain, fastCapOf(), hardCapOf(id.Cfg.Budget)))
+		fmt.Printf("the same case without the earlier call: %d finding(s)\n", len(fs0))
+		q := "after-earlier-call"
+		if r.preProxy >= 0 {
+			q = "remembered-proxy"
+		}
+		for i, f := range fs {
+			plainHas := false
+			for _, f0 := range fs0 {
+				plainHas = plainHas || f0.key == f.key
+			}
+			if !plainHas {
+				fs[i] = f.qualify(q)
+			}
+		}
+	}
 	for i, at := range r.attempts {
 		if i >= 40 {
 			fmt.Printf("  ... %d more attempts\n", len(r.attempts)-i)
@@ -1100,6 +1229,7 @@ func main() {
 	x := &explorer{run: run, b: makeBounds(run.Thorough()), fastCap: fastCapOf(), samples: ev.NewSamples(6, run.Seed), viol: map[string]*best{}}
 	x.total.outcomes, x.total.paths, x.total.byPart = map[string]int64{}, map[uint64]struct{}{}, map[string]int64{}
 	x.total.byCmdPath, x.total.refused, x.total.validated = map[string]int64{}, map[string]int64{}, map[string]int64{}
+	x.total.byPre = map[string]int64{}
 	for _, p := range catalogue.problems {
 		run.Note("catalogue: %s", p)
 	}
